@@ -175,8 +175,11 @@ def ident_site(repo: Repo) -> List[Ob]:
                 obs.append(ok("IDENT-site", fi, key, props, n, "probe is a product-space member (state=None)"))
             else:
                 tcl = pv.typer.classes(probe)
+                ecl = pv.typer.elem_classes(cont)
                 if tcl and not (tcl & veq) and "BaseState" not in tcl:
                     obs.append(ok("IDENT-site", fi, key, props, n, f"probe is a {sorted(tcl)} (identity equality)"))
+                elif not tcl and not ecl:
+                    obs.append(skip("IDENT-site", fi, key, props, n, "neither probe nor container could be typed"))
                 else:
                     obs.append(bad("IDENT-site", fi, key, props, n,
                                    f"`{src(n)[:70]}` tests membership by == : the probe may be a {sorted(veq)[0]} that still owns its state and the container may hold another "
